@@ -92,3 +92,56 @@ Example C16_example_guard :
   string_number [CStr [49]%N; CNum (Fixnum 37)] = Err E_OTHER /\
   string_number [CStr [49]%N; CNum (BigInt 4294967306)] = Err E_OTHER.
 Proof. split; vm_compute; reflexivity. Qed.
+
+(* ------------------------------------------------------------------ floats *)
+From Flocq Require Import IEEE754.BinarySingleNaN.
+From MW Require Import Proofs.FloatProofs.
+
+(* OPEN (not proved in general; checked in-kernel on the palette below and sampled
+   against the real std by every run of the check): the decimal that the
+   specification of std's formatting prints converts back, under the specification of
+   std's parsing, to the same double.  Both sides are executable definitions of
+   Model/F64Fmt.v; the statement is closed and decidable per double. *)
+Definition C16_std_roundtrip_stmt : Prop :=
+  forall x : f64, is_finite x = true -> dec2flt (num_display (Float x)) = Some x.
+(* OPEN: a non-integer double at most 1e10 prints with a decimal point *)
+Definition C16_display_point_stmt : Prop :=
+  forall x : f64, is_finite x = true ->
+    f64_ltb F_1E10 x = false -> float_is_integer x = false -> In 46%N (fmt_display x).
+
+(* marwood's part, proved: whichever of {:e} / {:.1} / {} the printer chooses, the
+   text has an 'e' or a '.' and no '/', is rejected by the i64, BigInt and rational
+   parsers and reaches the float parser; hence, given the two statements about std,
+   every finite double round-trips in radix 10 *)
+Theorem C16_float_roundtrip : C16_std_roundtrip_stmt -> C16_display_point_stmt ->
+  forall x : f64, is_finite x = true ->
+    number_string [CNum (Float x)] = Ok (CStr (num_display (Float x))) /\
+    string_number [CStr (num_display (Float x))] = Ok (CNum (Float x)).
+Proof. exact float_roundtrip. Qed.
+Print Assumptions C16_float_roundtrip.
+
+Theorem C16_float_text_reaches_float_parser : forall p t, float_text_ok t ->
+  number_parse p t 10 = Ok (match dec2flt t with Some f => Some (Float f) | None => None end).
+Proof. exact number_parse_float_text. Qed.
+Print Assumptions C16_float_text_reaches_float_parser.
+
+(* the two OPEN statements hold on a palette of doubles given by bit pattern: zeros,
+   subnormals, binade boundaries, 1e10 +- ulp, 2^53, 2^63, 1e22, 1e23 (a tie), the
+   2^50+0.25 tie, max; checked by the kernel *)
+Definition palette_bits : list Z :=
+  [0; 0x8000000000000000; 1; 2; 0x8000000000000001; 0x000fffffffffffff; 0x0010000000000000;
+   0x0010000000000001; 0x7fefffffffffffff; 0xffefffffffffffff; 0x3ff0000000000000; 0xbff0000000000000;
+   0x3fe0000000000000; 0x3fb999999999999a; 0x3fd3333333333333; 0x4202a05f20000000; 0x4202a05f1fffffff;
+   0x4202a05f20000001; 0xc202a05f20000000; 0x4340000000000000; 0x433fffffffffffff; 0x4340000000000001;
+   0x43e0000000000000; 0x43dfffffffffffff; 0x43e0000000000001; 0x444b1ae4d6e2ef50; 0x44b52d02c7e14af6;
+   0x44b52d02c7e14af5; 0x4310000000000001; 0x3ff8000000000000; 0xc04535c28f5c28f6; 0x3e7ad7f29abcaf48;
+   0x7e37e43c8800759c; 0x0000000000000004; 0x4000000000000000; 0x4024000000000000; 0x3ff0000000000001;
+   0x3fefffffffffffff; 0x41dfffffffe00000; 0x41dfffffffc00000].
+Definition roundtrips (b : Z) : bool :=
+  let x := f64_of_bits b in
+  match dec2flt (num_display (Float x)) with
+  | Some y => Z.eqb (f64_bits y) b
+  | None => false
+  end.
+Example C16_std_roundtrip_palette : forallb roundtrips palette_bits = true.
+Proof. vm_compute. reflexivity. Qed.
